@@ -48,6 +48,12 @@ CHECKS = {
             'series pools whose diagnostics differ are run and every returned value is compared with a fresh object; '
             'the invariant also stays on while the real searches re-use one diagnostics object across control groups.',
             '§5 C08'),
+    'C09': ('boundary recorder (exception type + innermost repo frame) on hostile input classes; logical-step bound from P-DATA events',
+            'Fifteen hostile input classes (1-2 geos, no control- / treatment-eligible geo, all excluded, empty admitted '
+            'set, size ranges beyond the geos, unsatisfiable ratio / share / budget, n_geos_max=2, n_test>=98, window of '
+            'exactly n_test+3, iroas=0, over-full fixed groups, random) are run through both real searches on fresh '
+            'objects; any exception other than ValueError, or more aggregation events than a polynomial / design-count '
+            'bound, is a violation; the outcome histogram per class is reported.', '§5 C09'),
 }
 
 NOT_YET = {}
